@@ -17,7 +17,7 @@ EXPLANATION = (
     "slots; it also reports whether the floating-point control state is saved (R2); stacks are mapped and unmapped with "
     "the same size and guard-page adjustment, and a thread object is recycled into the heap it is taken from (R3).")
 ASSUMPTIONS = ["the x86-64 Linux assembly backend is the one compiled (PIKA_HAVE_BOOST_CONTEXT off, checked)", "System V AMD64 ABI: rbx, rbp, r12-r15 and the MXCSR/x87 control bits are callee-saved"]
-FLOORS = {"C12.R1": 3, "C12.R2": 6, "C12.R3": 3, "C12.R4": 2, "C12.R5": 1, "C12.R6": 12, "C12.R7": 2, "C12.R8": 1, "C12.R9": 2}
+FLOORS = {"C12.R1": 3, "C12.R2": 6, "C12.R3": 3, "C12.R4": 2, "C12.R5": 1, "C12.R6": 11, "C12.R7": 2, "C12.R8": 1, "C12.R9": 2}
 
 TD = "pika::threads::detail::thread_data"
 CB = "pika::threads::coroutines::detail::context_base"
